@@ -133,6 +133,18 @@ def _grid_group(rng):
         k = rng.randrange(len(ops))
         ops[k] = (ops[k][0], [v + rng.choice([0, 0, 1]) for v in ops[k][1]])
         damage = "translation_perturbed"
+    if rng.random() < 0.5:
+        # the same structure in ANOTHER (skewed) lattice basis: fractional coordinates x' = x U^-1, rotations U R U^-1
+        # (integer matrices with entries outside {-1, 0, 1}), translations t' = t U^-1 — all still on the grid
+        while True:
+            U = np.array([[rng.randint(-3, 3) for _ in range(3)] for _ in range(3)])
+            if round(abs(np.linalg.det(U))) == 1:
+                break
+        Ui = np.rint(np.linalg.inv(U)).astype(int)
+        ps = [[int(v) for v in (np.array(p) @ Ui)] for p in ps]
+        # (column-vector convention of the code: x_new = R x + t with x a row of `positions`, i.e. positions @ R.T)
+        ops = [(np.rint(Ui.T @ R @ U.T).astype(int), [int(v) for v in (np.array(t) @ Ui)]) for R, t in ops]
+        damage = damage + "+skewed_basis"
     return ps, ops, damage
 
 
@@ -172,7 +184,7 @@ def corr_sg_full(rng, drv, n_cases=40) -> Result:
             res.count("table" if real is not None else "no_table")
             if m != real:
                 res.fail("compute_sg_permutations differs from the model", input=req, impl=real, model=m)
-            elif real is not None and damage == "none":
+            elif real is not None and damage in ("none", "none+skewed_basis"):
                 # the theorem's conclusion, observed: atom a goes to the atom at R x_a + t (mod 1)
                 P = np.array(ps)
                 for (R, t), row in zip(ops, real):
